@@ -388,7 +388,7 @@ def record_random(task):
             other = [b for b in "ACGT" if b != a[0] and b not in a[1]]
             snp_bases[p] = [a[0]] * 4 + list(a[1]) * 3 + other[:1] + ["N"]
         rgl = [("g1", "S1", 1), ("g2", "S1", 1), ("g3", "S2", 1), ("g4", "S1", 2), ("g5", "S3", 2)]
-        names = ["r%d" % i for i in range(rng.randint(8, 22))]
+        names = ["r%d" % i for i in range(rng.randint(*task.get("names", (8, 22))))]
         per_file = {1: [], 2: []}
         for i in range(task.get("alns", 30)):
             rg, sm, f = rng.choice(rgl)
